@@ -419,6 +419,13 @@ impl VM {
                             "stapel is vol: te veel geneste functie-aanroepen".to_string(),
                         ));
                     }
+                    // A function without parameters and locals takes no room on the stack, so the
+                    // check above never ends its recursion: the calls in progress are limited too
+                    if self.frames.len() > u16::MAX as usize {
+                        return Err(Error::TypeError(
+                            "stapel is vol: te veel geneste functie-aanroepen".to_string(),
+                        ));
+                    }
                     #[cfg(feature = "verif")]
                     crate::verif::probe_call_height(self.ip, self.stack.len(), num_args);
                     let base_pointer = self.stack.len() as u16 - 1 - num_args as u16;
